@@ -89,6 +89,12 @@ def main(argv=None):
         print(f"INCONCLUSIVE/HARNESS-ERROR {r['oid']}: {r['status']}: " + " | ".join(r.get("messages", []))[:1500], file=sys.stderr)
 
     wall = time.time() - t0
+    try:
+        json.dump([{"oid": r["oid"], "status": r["status"], "wall_s": r.get("wall_s"), "paths": r.get("paths"),
+                    "cpu_s": (r.get("claim") or {}).get("cpu_s"), "twin_cpu_s": (r.get("twin") or {}).get("cpu_s")} for r in results],
+                  open(os.path.join(common.BUILD, f"last_{prop}.json"), "w"), indent=0)
+    except Exception:
+        pass
     if not args.only:
         write_evidence(prop, args.tier, seed, mod, obs, results, wall, shims.ACTIVE, known_hits)
     print(f"{prop} {args.tier}: {len(obs)} obligations, {n_conf} confirmed, {len(viol)} violated, {len(bad)} inconclusive/error, "
